@@ -913,6 +913,8 @@ def loop_progress(b):
     out = []
     succ = b.normal_succs()
     for h, body in b.natural_loops():
+        if b.blocks[h].get('nd_loop'):
+            continue        # the artificial `zero or more times` loop of a closure placed at its adaptor call (closure view)
         # progress events inside the loop body
         prog = set()
         for bi in body:
